@@ -170,7 +170,7 @@ func permute(keys []hist.Key, ranks []int) []hist.Key {
 	return out
 }
 
-var methods = []string{"GET", "POST", "FOO"}
+var methods = []string{"GET", "POST", "FOO", "BAR"}
 
 func genCase(t *rapid.T) *Case {
 	c := &Case{}
@@ -245,6 +245,36 @@ func TestTwoHistories(t *testing.T) {
 				pre = append(pre, hist.Op{Kind: "handle", Method: m, Pattern: p})
 			}
 		}
+		// one history in eight (of those without another family) gives two or three uncommon verbs a route or two each, in a
+		// drawn order, and then empties the verb that came first (or a drawn one): its root leaves the per-method list while
+		// later ones stay; the other router never sees the emptied verb
+		var verbSrc []hist.Key
+		if len(pre) == 0 && gen.Chance(t, 1, 7, "verbfamily") {
+			vs := permute([]hist.Key{{M: "FOO"}, {M: "BAR"}, {M: "GET"}}, []int{gen.IntR(t, 0, 5, "v0"), gen.IntR(t, 0, 5, "v1")})
+			per := map[string][]string{}
+			for i, v := range vs {
+				pats := []string{"/v" + fmt.Sprint(i)}
+				if gen.Chance(t, 1, 2, "vtwo") {
+					pats = append(pats, "/v"+fmt.Sprint(i)+"/{p}")
+				}
+				for _, p := range pats {
+					pre = append(pre, hist.Op{Kind: "handle", Method: v.M, Pattern: p})
+					verbSrc = append(verbSrc, hist.Key{M: v.M, P: p})
+				}
+				per[v.M] = pats
+			}
+			victim := vs[0].M
+			if gen.Chance(t, 1, 3, "vother") {
+				victim = vs[gen.IntR(t, 0, 2, "vwhich")].M
+			}
+			if gen.Chance(t, 1, 2, "vtruncate") {
+				pre = append(pre, hist.Op{Kind: "truncate", Methods: []string{victim}})
+			} else {
+				for _, p := range per[victim] {
+					pre = append(pre, hist.Op{Kind: "delete", Method: victim, Pattern: p})
+				}
+			}
+		}
 		n := gen.IntR(t, 3, 40, "nops")
 		for i := 0; i < n+len(pre); i++ {
 			var op hist.Op
@@ -298,6 +328,14 @@ func TestTwoHistories(t *testing.T) {
 					c.Probes = append(c.Probes, rt.Req{Method: m, Host: host, Path: q})
 				}
 			}
+		}
+		for _, k := range verbSrc {
+			for _, m := range []string{k.M, "OPTIONS"} {
+				c.Probes = append(c.Probes, rt.Req{Method: m, Path: strings.ReplaceAll(k.P, "{p}", "x")})
+			}
+		}
+		if len(verbSrc) > 0 {
+			stats.Class("history-emptying-one-of-several-uncommon-verbs")
 		}
 		stats.EvalN(len(c.Probes))
 		stats.Sample(c)
